@@ -132,12 +132,14 @@ func ParsePatterns(docs ...*ast.CommentGroup) (patterns []string, hasDirective b
 				return nil, hasDirective, err
 			}
 			for _, f := range fields {
-				if uq, err := strconv.Unquote(f); err == nil {
-					patterns = append(patterns, uq)
-				} else {
-					if len(f) > 0 && (f[0] == '"' || f[0] == '`') {
+				// only string literals are unquoted ('a' is the pattern 'a', quotes included)
+				if len(f) > 0 && (f[0] == '"' || f[0] == '`') {
+					uq, err := strconv.Unquote(f)
+					if err != nil {
 						return nil, hasDirective, fmt.Errorf("invalid //go:embed quoted pattern %q", f)
 					}
+					patterns = append(patterns, uq)
+				} else {
 					patterns = append(patterns, f)
 				}
 			}
